@@ -18,9 +18,9 @@ func init() {
 		QuickTimeoutS: 400, ThoroughTimeoutS: 2400, GoMaxProcs: []int{2}, Parallel: 8,
 		Level: "fault_enumeration", DesignRef: "DESIGN.md section 4, C18",
 		Technique: "runtime monitoring over the exhaustively enumerated configuration space of the cloudevents formatter (incl. failing signer and failing predicate) with a recording signer, decode-and-compare of every stored document, canonical re-indentation check, and re-verification of earlier events' documents after later ones were formatted",
-		LevelText: "Fault enumeration by execution: all 4320 combinations of payload kind {plain, ID, Data, ID+Data, empty ID()} x Format {unset, json, text, invalid} x Schema {nil, set, empty} x Source {set, nil, empty} x Signer {absent, recording, failing} x event type {listed, unlisted} x Predicate {nil, true, false, error} are executed (2x quick / 200x thorough with seeded payload contents). For valid configurations the bytes stored under the configured format must decode to an object with non-empty id (== ID() when implemented, otherwise never repeating over the run), source, specversion 1.0, type, time == CreatedAt, data == JSON image of the payload or of Data(), the content type matching the format and dataschema iff a schema is set, no unknown members; the text format must equal the 2-space re-indentation of itself, the json format one compact line. Signing: if a signer is set and the type is listed, serialized must base64url-decode to bytes B that the recording signer was really called with, serialized_hmac must be what it returned for B, and B must be the exact (indented, for text) encoding of the document without the two members; a failing signer means no forward and nothing stored; unlisted types never reach the signer. Invalid configurations and empty IDs are rejected without storing anything. Predicate semantics as for C14. Earlier events' documents are compared again after 24 later events.",
+		LevelText: "Fault enumeration by execution: all 5400 combinations of payload kind {plain, ID, Data, ID+Data, empty ID()} x Format {unset, json, text, invalid} x Schema {nil, set, empty} x Source {set, nil, empty} x Signer {absent, recording, failing} x event type {listed, unlisted} x Predicate {nil, true, false, error, true-with-error} are executed (2x quick / 200x thorough with seeded payload contents). For valid configurations the bytes stored under the configured format must decode to an object with non-empty id (== ID() when implemented, otherwise never repeating over the run), source, specversion 1.0, type, time == CreatedAt, data == JSON image of the payload or of Data(), the content type matching the format and dataschema iff a schema is set, no unknown members; the text format must equal the 2-space re-indentation of itself, the json format one compact line. Signing: if a signer is set and the type is listed, serialized must base64url-decode to bytes B that the recording signer was really called with, serialized_hmac must be what it returned for B, and B must be the exact (indented, for text) encoding of the document without the two members; a failing signer means no forward and nothing stored; unlisted types never reach the signer. Invalid configurations and empty IDs are rejected without storing anything. Predicate semantics as for C14. Earlier events' documents are compared again after 24 later events.",
 		LevelNote: "Trusted: encoding/json for the JSON image and canonical indentation, the recording signer. The finite configuration space is enumerated completely by every run (across its batches); payload contents are sampled. One listed known finding: the content type member is spelt \"datacontentype\" (see known_findings.json).",
-		Rule:      "exhaustive enumeration of the 4320 configurations, each batch taking every NBatch-th; distinct = distinct configuration.",
+		Rule:      "exhaustive enumeration of the 5400 configurations, each batch taking every NBatch-th; distinct = distinct configuration.",
 	})
 }
 
